@@ -525,6 +525,14 @@ def _as_iter(ip, st, ci, v, argop):
                 aty = ip.place_ty(fr, argop["place"])
                 esz = ip.sizeof(cr, ip.elem_ty(cr, aty))
                 return ("iter", "slice", v[1], esz, count_of(st, ip.tlen(st, v[1]), esz))
+    if v[0] == "bytes" and argop["k"] in ("copy", "move"):
+        # an array iterated by value (`for c in ct` / `.zip(ct)`): its elements, copied out
+        cr = crate(ci)
+        aty = ip.place_ty(ci["fr"], argop["place"])
+        esz = ip.sizeof(cr, ip.elem_ty(cr, aty))
+        cell = ("arr", len(st.heap))
+        st.heap[cell] = v
+        return ("iter", "copied", ("iter", "slice", Target(cell), esz, count_of(st, T.blen(v[1]), esz)))
     raise Undecided("into_iter of %s" % v[0])
 
 
@@ -1809,6 +1817,8 @@ def checked_arith(ip, st, ci):
         r = {"checked_add": T.iadd(a[1], b[1]), "checked_sub": T.isub(a[1], b[1])}.get(op)
         if r is None:
             r = T.ifn(a[1][1], "Mul", a[1], b[1])
+        if op == "checked_sub" and not a[1][3] and a[1][2] == (1 << a[1][1]) - 1:
+            return vsome(vint(r))      # MAX - x never underflows
         # None exactly when the w-bit operation overflows: not decidable for symbolic operands
         return ("symopt", ("checked", op, vint(r), a, b))
     raise Undecided("%s on %s,%s" % (op, a[0], b[0]))
@@ -2130,6 +2140,21 @@ def slice_chunks(ip, st, ci):
         else:
             out.append((s2, whole))
     return out
+
+
+@prim("Array::<T, U>::slice_as_chunks", "Array::<T, U>::slice_as_chunks_mut", "Array::slice_as_chunks", "Array::slice_as_chunks_mut")
+def array_slice_as_chunks(ip, st, ci):
+    """hybrid_array: a slice viewed as (whole `Array<T, U>` chunks, remainder)."""
+    tg = tg_of(ci["args"][0])
+    targs = fn_targs(ci)
+    if len(targs) < 2:
+        raise Undecided("slice_as_chunks without type arguments")
+    cr = crate(ci)
+    chunk = ip.sizeof(cr, targs[0]) * ip.tn_lin(cr, targs[1])
+    total = ip.tlen(st, tg)
+    oblig(st, ci, "nonzero:slice_as_chunks", st.F.prove_ge(chunk - 1), "%r != 0" % (chunk,))
+    k, d = decompose(st, total, chunk)
+    return ("tuple", [vref(ip.br(tg, ZERO, k * chunk)), vref(ip.br(tg, k * chunk, d))])
 
 
 @prim("core::slice::<impl [T]>::rchunks_mut", "core::slice::<impl [T]>::rchunks")
